@@ -288,6 +288,8 @@ class Program:
             self._index_module(m)
         self._normalise_aliases()
         self._normalise_calls()
+        if not os.environ.get("FLEXLINT_KEEP_CONST_NAMES"):
+            self._inline_constants()
 
     def _normalise_delegates(self) -> None:
         """Canonicalising pass run before indexing: a method that only hands its own parameters to a private method of the
@@ -512,6 +514,90 @@ class Program:
                     fn.body[k] = R().visit(b)
                 ast.fix_missing_locations(fn)
         self.aliases_inlined = n_inlined
+
+    def _inline_constants(self) -> None:
+        """Last canonicalising pass: a numeric module-level constant (bound once in its module, never declared global
+        anywhere in it) that is read inside a function body - by its name, by an imported name or as `module.NAME` - is
+        analysed as its value, so `frame[ETH_HEADER_LEN:]` and `frame[14:]`, `>= vam_constants.T_GENVAMMIN` and `>= 100` are
+        one spelling for every rule.  Module-level bindings stay, so rules that check a constant's VALUE against a
+        specification table still find it by name.  (FLEXLINT_KEEP_CONST_NAMES=1 switches the pass off for debugging.)"""
+        n = 0
+        for m in list(self.modules.values()):
+            if m.is_data:
+                continue
+            bound_once = {}
+            for st in m.tree.body:
+                for t in (st.targets if isinstance(st, ast.Assign) else [st.target] if isinstance(st, ast.AnnAssign) else []):
+                    if isinstance(t, ast.Name):
+                        bound_once[t.id] = bound_once.get(t.id, 0) + 1
+            rebound = {nm for g in ast.walk(m.tree) if isinstance(g, ast.Global) for nm in g.names}
+            m._const_ok = {k for k, c in bound_once.items() if c == 1 and k not in rebound}
+        prog = self
+
+        for m in list(self.modules.values()):
+            if m.is_data:
+                continue
+            for fn in [f for f in ast.walk(m.tree) if isinstance(f, (ast.FunctionDef, ast.AsyncFunctionDef))]:
+                local = {a.arg for a in fn.args.posonlyargs + fn.args.args + fn.args.kwonlyargs}
+                if fn.args.vararg:
+                    local.add(fn.args.vararg.arg)
+                if fn.args.kwarg:
+                    local.add(fn.args.kwarg.arg)
+                local |= {x.id for x in ast.walk(fn) if isinstance(x, ast.Name) and isinstance(x.ctx, (ast.Store, ast.Del))}
+
+                class R(ast.NodeTransformer):
+                    def _const(self, node):
+                        if isinstance(node, ast.Name):
+                            if node.id in local:
+                                return None
+                            r = prog.resolve_name(m, node.id)
+                        else:
+                            root = node
+                            while isinstance(root, ast.Attribute):
+                                root = root.value
+                            if not isinstance(root, ast.Name) or root.id in local:
+                                return None
+                            r = prog.resolve_expr_entity(m, node)
+                        if not (isinstance(r, tuple) and r[0] == "const"):
+                            return None
+                        owner = r[1]
+                        nm = node.id if isinstance(node, ast.Name) else node.attr
+                        src_name = nm
+                        if nm not in getattr(owner, "_const_ok", ()):        # imported under another name: look the value's name up
+                            cands = [k for k, v in owner.consts.items() if v is r[2]]
+                            if not cands or cands[0] not in getattr(owner, "_const_ok", ()):
+                                return None
+                        v = prog.try_fold(owner, r[2])
+                        if isinstance(v, bool) or not isinstance(v, (int, float)):
+                            return None
+                        return v
+
+                    def visit_Name(self, node):
+                        if isinstance(node.ctx, ast.Load):
+                            v = self._const(node)
+                            if v is not None:
+                                nonlocal n
+                                n += 1
+                                return ast.copy_location(ast.Constant(value=v), node)
+                        return node
+
+                    def visit_Attribute(self, node):
+                        if isinstance(node.ctx, ast.Load):
+                            v = self._const(node)
+                            if v is not None:
+                                nonlocal n
+                                n += 1
+                                return ast.copy_location(ast.Constant(value=v), node)
+                        return self.generic_visit(node)
+
+                    def visit_FunctionDef(self, node):
+                        return node if node is not fn else self.generic_visit(node)
+                    visit_AsyncFunctionDef = visit_FunctionDef
+                fn.body = [R().visit(b) for b in fn.body]
+        self.constants_inlined = n
+        for attr in list(vars(self)):
+            if attr.endswith("_cache") and isinstance(getattr(self, attr), dict):
+                getattr(self, attr).clear()
 
     def _normalise_calls(self) -> None:
         """Second canonicalising pass (after indexing, before any flow is built): a call that passes arguments to a
